@@ -385,6 +385,6 @@ pub fn run(ctx: &mut Ctx) {
     ctx.meta.insert("samples".into(), serde_json::json!(samples));
     ctx.meta.insert(
         "rule".into(),
-        serde_json::json!("triples (a,b,c) of construction paths over 3 classes x amounts -2..2 (every constructor, sums of singletons, expression lists, neg/sub results) sampled from the seed (thorough: a quarter of all ordered pairs too), plus random values with amounts up to 2^120 and names/policies of length 0..40; non-trivial = a and b hold at least two entries together and are not both empty; distinct = distinct printed case"),
+        serde_json::json!("triples (a,b,c) of construction paths over 3 classes x amounts -2..2 (every constructor - from_class_and_amount also with hand-made classes whose policy or name is empty -, sums of singletons, expression lists, neg/sub results) sampled from the seed (thorough: a quarter of all ordered pairs too), plus random values with amounts up to 2^120 and names/policies of length 0..40; non-trivial = a and b hold at least two entries together and are not both empty; distinct = distinct printed case"),
     );
 }
